@@ -985,7 +985,7 @@ impl Group for C08Onchain {
          max-feerate edge (±1 sat), the old 2^32 sat/kw truncation region and u64 overflow candidates; through \
          Node::check_onchain_tx or Approve::handle_proposed_onchain; non-trivial = at least one accepted and one refused/reported tx"
     }
-    fn budget(&self, tier: Tier) -> usize { if tier == Tier::Quick { 400 } else { 8000 } }
+    fn budget(&self, tier: Tier) -> usize { if tier == Tier::Quick { 2500 } else { 40000 } }
     fn corpus(&self) -> Vec<Vec<String>> {
         let c = |s: &str| s.split('|').map(|x| x.to_string()).collect::<Vec<String>>();
         vec![
